@@ -435,6 +435,99 @@ def case_hash_ws(case):
     return finish_case(I, res)
 
 
+# ---- split: the same items distributed over files in every way, from source text through parser::parse ------------------------
+SPLIT_ITEMS = {
+    "plain": "#[typeshare]\npub struct Pa { pub a: u32 }\n",
+    "path_form": "#[typeshare::typeshare]\npub struct Pb { pub b: Pa }\n",
+    "list_form": '#[typeshare(swift = "Equatable")]\npub enum Pc { Va, Vb }\n',
+    "in_module": "pub mod inner {\n    #[typeshare]\n    pub type Pd = Vec<u32>;\n}\n",
+    "member_marker_only": "#[typeshare::typeshare]\npub struct Pe { pub keep: u32, #[typeshare(skip)] pub gone: u32 }\n",
+    "const": "#[typeshare]\npub const PF: u32 = 7;\n",
+}
+
+
+def set_partitions(xs):
+    if not xs:
+        yield []
+        return
+    first, rest = xs[0], xs[1:]
+    for part in set_partitions(rest):
+        for i in range(len(part)):
+            yield part[:i] + [[first] + part[i]] + part[i + 1:]
+        yield [[first]] + part
+
+
+def case_split(case):
+    """every way of distributing the items over files gives the same normal form after fold + reconcile_aliases"""
+    items, multi = case
+    from vlib.mirsym import parse_entry
+    P = prog()
+    I = new_interp(P)
+    L = P.layout
+    pn = L.structs["ParsedData"]
+    res = {"paths": 0, "violations": [], "case": [list(items), multi]}
+    parts = list(set_partitions(list(items)))
+
+    def run_split(I, part):
+        pds = []
+        for fi, names in enumerate(part):
+            src = "".join(SPLIT_ITEMS[n] for n in names)
+            r = parse_entry.run_parse(I, src, None, multi_file=multi, crate="a" if multi else "", file_name="a.ts" if multi else "", file_path="a/src/f%d.rs" % fi)
+            if r.variant != 0:
+                raise Unsupported("parser::parse returned Err on a split file")
+            if r.fields[0].variant == 1:
+                pds.append(r.fields[0].fields[0])
+        m = collect(I, pds)
+        cell = [m]
+        I.call_static("reconcile::reconcile_aliases", [Ref(cell, 0)])
+        return cell[0]
+
+    def entry(I):
+        return [run_split(I, part) for part in parts]
+
+    for kind, out, pc in I.explore(entry, max_paths=200):
+        res["paths"] += 1
+        if kind == "panic":
+            res["violations"].append({"kind": "panic", "msg": out.msg}); continue
+        base = out[0]
+        for part, m in zip(parts[1:], out[1:]):
+            bad = None
+            if len(m.entries) != len(base.entries):
+                bad = "crate set"
+            else:
+                for (c1, p1), (c2, p2) in zip(base.entries, m.entries):
+                    for fld in ("structs", "enums", "aliases", "consts", "type_names"):
+                        e = eqf(p1.fields[pn.index(fld)], p2.fields[pn.index(fld)])
+                        if e is False or (e is not True and I.sat_model(z3.Not(e)) is not None):
+                            bad = fld
+                            break
+                    if bad:
+                        break
+            if bad:
+                res["violations"].append({"kind": "split-dependent", "field": bad, "split": [list(x) for x in part], "reference": [list(x) for x in parts[0]]})
+                break
+    return finish_case(I, res)
+
+
+def native_split(d, case, v):
+    """the real binary on the two distributions: same output bytes?"""
+    import os
+    items, multi = case
+    outs = []
+    for k, part in enumerate((v["reference"], v["split"])):
+        root = os.path.join(d, "w%d" % k)
+        os.makedirs(os.path.join(root, "a", "src"))
+        for fi, names in enumerate(part):
+            open(os.path.join(root, "a", "src", "f%d.rs" % fi), "w").write("".join(SPLIT_ITEMS[n] for n in names))
+        argv = ["a", "--lang", "typescript"] + (["-d", "out"] if multi else ["-o", "out.ts"])
+        rc, out, err = drv().cli(argv, root, pin=True)
+        path = os.path.join(root, "out", "a.ts") if multi else os.path.join(root, "out.ts")
+        outs.append((rc, open(path).read() if os.path.exists(path) else None))
+    if outs[0] != outs[1]:
+        return True, "the items %s in files %s and in files %s give different output (exit %s / %s; %s vs %s bytes)" % (list(items), v["reference"], v["split"], outs[0][0], outs[1][0], len(outs[0][1] or ""), len(outs[1][1] or "")), {"op": "split", "items": list(items), "multi": multi, "v": v}
+    return False, "real binary writes the same bytes for both distributions", None
+
+
 def multisets(kinds, k):
     return list(itertools.combinations_with_replacement(kinds, k))
 
@@ -473,7 +566,12 @@ def run(rep, tier, only=None):
     else:
         wcases = [("typescript", "single", "field"), ("kotlin", "same-name-c", "map-value"), ("typescript", "same-name-both-imported", "field"), ("kotlin", "same-name-both-imported", "vec"), ("typescript", "same-name-two-modules", "field")]
     rep.bounds["hash-ws"] = "the folder-mode pipeline from source text on %d of the C14 workspace templates under every hash iteration order, up to 700 paths each (beyond: a prefix of the orders, reported as not exhaustive)" % len(wcases)
-    groups = [("fold", "case_fold", cases), ("hash", "case_hash", hcases), ("hash-ws", "case_hash_ws", wcases)]
+    names_ = list(SPLIT_ITEMS)
+    scases = [(tuple(c), m) for m in (False, True) for c in ([names_[0], names_[1]], [names_[1], names_[2], names_[3]], [names_[4], names_[5], names_[0]], [names_[1], names_[4]])]
+    if tier == "thorough":
+        scases += [(tuple(c), m) for m in (False, True) for c in itertools.combinations(names_, 4)]
+    rep.bounds["split"] = "items annotated in every spelling (%s) distributed over files in every way (all set partitions of 2-3 items; thorough: every 4 of the 6), each file entered through parser::parse (text pre-filter included), folded and reconciled: the normal forms are equal" % sorted(SPLIT_ITEMS)
+    groups = [("fold", "case_fold", cases), ("split", "case_split", scases), ("hash", "case_hash", hcases), ("hash-ws", "case_hash_ws", wcases)]
     for gname, fn, cs in groups:
         if only and gname not in only:
             continue
@@ -492,7 +590,9 @@ def run(rep, tier, only=None):
                     rep.sample({"group": gname, "case": str(case), "paths": r["paths"], "verdict": "normal forms equal for every name assignment (unsat otherwise)" if gname == "fold" else "same bytes on every path"})
                 continue
             for v in r["violations"]:
-                if gname == "fold":
+                if gname == "split":
+                    sig = {"group": "split", "kind": v["kind"], "field": v.get("field"), "mode": "folder" if case[1] else "single"}
+                elif gname == "fold":
                     sig = {"group": "fold", "kind": v["kind"], "field": v.get("field"), "equal_names": v.get("equal_names"), "mode": "folder" if case[2] else "single"}
                 else:
                     sig = {"group": "hash", "kind": v["kind"], "lang": case[0], "mode": "folder" if case[1] else "single", "tree": case[2] if len(case) > 2 else "basic"}
@@ -558,6 +658,8 @@ def native(gname, case, v):
             return native_fold(d, texts, multi, {"op": "fold", "kinds": "".join(kinds), "names": names, "renames": v.get("renames") or names, "multi": multi})
         if gname == "hash-ws":
             return native_hash_ws(d, case)
+        if gname == "split":
+            return native_split(d, case, v)
         return native_hash(d, case[0], case[1], case[2] if len(case) > 2 else "basic")
     finally:
         shutil.rmtree(d, ignore_errors=True)
@@ -662,6 +764,8 @@ def replay(body):
     try:
         if c["op"] == "hash-ws":
             ok, why, _ = native_hash_ws(d, (c["lang"], c["form"], c["position"]))
+        elif c["op"] == "split":
+            ok, why, _ = native_split(d, (tuple(c["items"]), c["multi"]), c["v"])
         elif c["op"] == "fold":
             texts = [render_file(kd, i, c["names"][i], (c.get("renames") or c["names"])[i]) for i, kd in enumerate(c["kinds"])]
             ok, why, _ = native_fold(d, texts, c["multi"], c)
